@@ -56,7 +56,17 @@ func repoDir() string {
 	return "/repo"
 }
 
-func packageInto(doc string, format string, w io.Writer, tweak func(*nfpm.Info)) error {
+// panicked: the packaging call did not return at all
+type panicked struct{ what string }
+
+func (p *panicked) Error() string { return "PANIC instead of an error: " + p.what }
+
+func packageInto(doc string, format string, w io.Writer, tweak func(*nfpm.Info)) (err error) {
+	defer func() {
+		if r := recover(); r != nil {
+			err = &panicked{fmt.Sprint(r)}
+		}
+	}()
 	cfg, err := parseDoc(doc)
 	if err != nil {
 		return fmt.Errorf("parse: %w", err)
@@ -345,11 +355,19 @@ func invalidClasses() []invalidClass {
 			c.Deb.Signature.KeyFile, c.RPM.Signature.KeyFile = bad, bad
 		}},
 		{"changelog-malformed", func(c *nfpm.Config) { c.Changelog = "scripts/not-a-changelog" }},
+		// an epoch rpm's 32-bit field cannot hold
+		{"rpm-epoch-out-of-range", func(c *nfpm.Config) { c.Epoch = "4294967298" }},
+		// a key file that exists, is readable and holds nothing
+		{"pgp-key-empty", func(c *nfpm.Config) {
+			c.Deb.Signature.KeyFile, c.RPM.Signature.KeyFile = "scripts/empty-key", "scripts/empty-key"
+		}},
+		{"apk-key-empty", func(c *nfpm.Config) { c.APK.Signature.KeyFile = "scripts/empty-key" }},
 	}
 }
 
 func runC06Invalid(w *caseWriter, id string, d c06Desc, st *c06Stats) {
-	d.Files = append(d.Files, extraFile{Path: "scripts/not-a-changelog", Hex: fmt.Sprintf("%x", "- semver: [unclosed\n  date: never\n"), Mode: 0o644, MTime: 1650000000})
+	d.Files = append(d.Files, extraFile{Path: "scripts/not-a-changelog", Hex: fmt.Sprintf("%x", "- semver: [unclosed\n  date: never\n"), Mode: 0o644, MTime: 1650000000},
+		extraFile{Path: "scripts/empty-key", Hex: "", Mode: 0o600, MTime: 1650000000})
 	writeDesc(id, d)
 	writeExtraFiles(d.Files)
 	defer removeExtraFiles(d.Files)
@@ -375,7 +393,9 @@ func runC06Invalid(w *caseWriter, id string, d c06Desc, st *c06Stats) {
 			if err != nil {
 				msg = err.Error()
 			}
-			w.line("iset %s %s %d %s", xs(cl.name), xs(f), b2i(err == nil), xs(msg))
+			// a panic is not "a non-nil error returned": it counts like a nil
+			var pn *panicked
+			w.line("iset %s %s %d %s", xs(cl.name), xs(f), b2i(err == nil || errors.As(err, &pn)), xs(msg))
 			st.invalid++
 		}
 	}
